@@ -10,7 +10,8 @@ The token is: the cookie string itself, the token issued by a *second* GET carry
 4-byte mask, the v1 hex of the secret in lower/upper case, a token of another session, a single-character
 mutation of a valid token, empty, arbitrary text, non-UTF-8 bytes.  Carriers: urlencoded body field, query
 argument, multipart field, ``X-XSRFToken``, ``X-CSRFToken`` and pairs of carriers that disagree.  Methods:
-POST PUT DELETE PATCH GET HEAD OPTIONS.
+POST PUT DELETE PATCH GET HEAD OPTIONS and the application-defined PROPFIND PURGE REPORT (the handler extends
+SUPPORTED_METHODS): every method other than GET/HEAD/OPTIONS must be gated.
 
 Oracle: an independent decoder written from the documented formats (v2 ``2|mask_hex|masked_hex|timestamp``
 with a 4-byte XOR mask, v1 hex-or-raw) gives ``dec(cookie)`` and ``dec(token)`` where *token* is the first
@@ -90,7 +91,9 @@ class XHandler(tornado.web.RequestHandler):
             CUR["ran"] = True
             self.write("ran")
 
-    get = post = put = delete = patch = head = options = _any
+    # application-defined methods: everything that is not GET/HEAD/OPTIONS is subject to the check
+    SUPPORTED_METHODS = tornado.web.RequestHandler.SUPPORTED_METHODS + ("PROPFIND", "PURGE", "REPORT")
+    get = post = put = delete = patch = head = options = propfind = purge = report = _any
 
 
 APPS = {v: tornado.web.Application([(r"/.*", XHandler)], xsrf_cookies=True, xsrf_cookie_version=v) for v in (1, 2)}
@@ -337,6 +340,8 @@ def evaluate(case):
         return problem("C24.uncaught_exception_logged", {"log": unc[:2]})
     if ran and code != 200:
         return problem("C24.handler_ran_but_status", {"code": code})
+    if method in CUSTOM_METHODS:
+        labels.add("custom_method")
     if safe:
         labels.add("safe_method")
         if not ran:
@@ -370,6 +375,8 @@ def evaluate(case):
             return problem("C24.issued_token_rejected" if issued else "C24.matching_token_rejected", {"code": code})
     else:
         labels.add("reject")
+        if method in CUSTOM_METHODS:
+            labels.add("custom_method_reject")
         if "token_other_session" in labels:
             labels.add("other_session_reject")
         if "token_mutated" in labels:
@@ -443,7 +450,8 @@ carriers_s = st.one_of(
     st.lists(st.tuples(carrier_kind_s, token_s), min_size=0, max_size=2),
     blank_then_token_s,
 )
-method_s = st.sampled_from(["POST", "POST", "POST", "PUT", "DELETE", "PATCH", "GET", "HEAD", "OPTIONS"])
+CUSTOM_METHODS = ["PROPFIND", "PURGE", "REPORT"]
+method_s = st.sampled_from(["POST", "POST", "POST", "PUT", "DELETE", "PATCH", "GET", "HEAD", "OPTIONS"] + CUSTOM_METHODS)
 case_s = st.tuples(st.sampled_from([1, 2, 2]), seed_s, cookie_s, carriers_s, method_s)
 
 def edge_cases():
@@ -459,6 +467,15 @@ def edge_cases():
                 yield (version, seed, ("issued",), [(carrier, ("literal", bad))], "POST")
             yield (version, seed, ("enc2", b"abcd", "5"), [("query", ("literal", bad))], "DELETE")
             yield (version, seed, ("issued",), [("multipart", ("literal", bad))], "PATCH")
+        # every method other than GET/HEAD/OPTIONS is gated, application-defined ones included: no token,
+        # a foreign token, a malformed one, a mutated one -> 403; the issued / re-masked token -> handler runs
+        for method in CUSTOM_METHODS + ["POST", "PUT", "PATCH", "DELETE"]:
+            for cookie in (("issued",), ("enc2", b"abcd", "5"), ("absent",)):
+                yield (version, b"\x09", cookie, [], method)
+                for carrier in ("form", "query", "x-xsrftoken", "x-csrftoken"):
+                    for tok in (("other_session",), ("literal", "2|zz|00|1"), ("literal", "deadbeef"), ("literal", ""),
+                                ("mutate", ("cookie_value",), 9, "0"), ("cookie_value",), ("remask", b"wxyz", "7")):
+                        yield (version, b"\x09", cookie, [(carrier, tok)], method)
         # a present-but-blank earlier carrier must not shadow a valid token in a later carrier
         for (first, later) in BLANK_PAIRS:
             for blank in BLANKS:
